@@ -152,6 +152,8 @@ MUTANTS = [
     ("c10-wrong-sig", "C10", BAR, "numerator=self.time_signature_numerator,\n                                                   denominator=self.time_signature_denominator), index=0)",
      "numerator=self.time_signature_denominator,\n                                                   denominator=self.time_signature_numerator), index=0)", {"SIG"}),
     ("c10-no-count-check", "C10", BAR, "        if len(time_signatures) > 1:\n            raise BarException(\"Too many time signatures in a bar\")\n", "", {"SIG"}),
+    ("c10-signatures-of-a-prefix", "C10", BAR, "        time_signatures = [msg for msg in self.sequence.messages_rel() if\n", "        time_signatures = [msg for msg in list(self.sequence.messages_rel())[:1] if\n", {"SIG"}),
+    ("c10-rewrite-filters-a-prefix", "C10", BAR, "        self.sequence.overwrite_relative_messages([msg for msg in self.sequence.messages_rel() if\n", "        self.sequence.overwrite_relative_messages([msg for msg in list(self.sequence.messages_rel())[:8] if\n", {"SIG"}),
     ("c10-copy-drops-key", "C10", BAR, "self.time_signature_numerator, self.time_signature_denominator, self.key_signature)", "self.time_signature_numerator, self.time_signature_denominator)", {"COPY"}),
     # ---- C11
     ("c11-true-division", "C11", ABS, "(message_original_time // step_size) * step_size", "(message_original_time / step_size) * step_size", {"NK1"}),
@@ -351,6 +353,7 @@ EQUIVALENTS = [
       "            track_indices = [[i] for i in range(len(midi_file.tracks))]"),
       (SEQ, "            meta_track_indices = [i for i, _ in enumerate(midi_file.tracks)]",
       "            meta_track_indices = list(range(len(midi_file.tracks)))")]),
+    ("bar-signatures-from-a-list-copy", ("C10",), [(BAR, "        time_signatures = [msg for msg in self.sequence.messages_rel() if\n", "        time_signatures = [msg for msg in list(self.sequence.messages_rel()) if\n")]),
     ("eq-by-operator", ("C17", "C10", "C16"), [(SEQ, "        return self.abs.__eq__(o.abs)", "        return self.abs == o.abs")]),
     ("message-type-order-by-table", ("C15", "C04", "C12", "C13"), [(ENUM,
       "    def __lt__(self, other):\n        values = [e for e in MessageType]\n        return values.index(self) < values.index(other)",
